@@ -295,3 +295,26 @@ Example C17_sound_example :
      [98]; [49]; [57; 45; 57]; [97]; [49]; [49; 48; 45; 50; 48];
      [112; 101; 101; 114]; [113]; [49]; [49; 45; 49]; kw_PEER] = Ok (m, e) /\ p_epoch m = 5 /\ p_peer m = [] /\ length (p_local m) = 2%nat.
 Proof. eexists. eexists. split; [vm_compute; reflexivity|]. vm_compute. repeat split. Qed.
+
+(* ---- the broker half: "the descriptor a proxy reports for a finished migration is accepted by the broker as naming that migration" ----
+   The wire half is C17_task above (the descriptor arrives EQUAL). The statements live in Proofs/C17BrokerHalf.v (the Broker model's names
+   clash with the Wire model's): for every store reached by ANY operation sequence and every Migrating or Importing slot entry visible in a served
+   cluster view under any migration limit, commit_migration with that entry's (ranges, tag, epoch) succeeds, removes exactly that migration pair,
+   keeps every other pending migration, moves the ranges into the destination's stable slots and bumps the cluster epoch (commit_effect);
+   a second commit of the same descriptor and a stale descriptor return MigrationTaskNotFound and leave the store unchanged. *)
+From UM Require Proofs.C17BrokerHalf.
+
+Theorem C17_commit_accepts : C17BrokerHalf.commit_accepts_visible_stmt.
+Proof. exact C17BrokerHalf.commit_accepts_visible_holds. Qed.
+Check C17_commit_accepts : C17BrokerHalf.commit_accepts_visible_stmt.
+Print Assumptions C17_commit_accepts.
+
+Theorem C17_commit_twice_rejected : C17BrokerHalf.commit_twice_rejected_stmt.
+Proof. exact C17BrokerHalf.commit_twice_rejected_holds. Qed.
+Check C17_commit_twice_rejected : C17BrokerHalf.commit_twice_rejected_stmt.
+Print Assumptions C17_commit_twice_rejected.
+
+Theorem C17_commit_stale_rejected : C17BrokerHalf.commit_stale_rejected_stmt.
+Proof. exact C17BrokerHalf.commit_stale_rejected_holds. Qed.
+Check C17_commit_stale_rejected : C17BrokerHalf.commit_stale_rejected_stmt.
+Print Assumptions C17_commit_stale_rejected.
